@@ -453,6 +453,22 @@ def conversion_matrix(ck, qr, numpy):
             return o.get_electronic_Hamiltonian().data[ka, kb]
         return w, rd
 
+    def acc_cutoff(factor):
+        """coupling of a Hamiltonian after its part above / below a cut-off
+        (given in the current units) was set aside and recovered"""
+        def w(v):
+            h = qr.Hamiltonian(data=[[0.0, 0.0, 0.0], [0.0, 10 * v, v],
+                                     [0.0, v, 11 * v]])
+            u1 = man.get_current_units("energy")
+            cut = R.from_internal(factor * R.to_internal(v, u1), u1)
+            h.subtract_cutoff_coupling(cut)
+            h.recover_cutoff_coupling()
+            return h
+
+        def rd(o):
+            return o.data[1, 2]
+        return w, rd
+
     def acc_convert():
         return None, None
 
@@ -465,7 +481,9 @@ def conversion_matrix(ck, qr, numpy):
                      corfce_reorg=acc_reorg(),
                      twoexciton_state_coupling=acc_state_coupling("coupling"),
                      electronic_hamiltonian_twoexciton=acc_state_coupling(
-                         "hamiltonian"))
+                         "hamiltonian"),
+                     coupling_after_cutoff_below=acc_cutoff(0.4),
+                     coupling_after_cutoff_above=acc_cutoff(2.5))
     noted_nm = set()
     for name, (w, rd) in accessors.items():
         stored = {}
